@@ -173,7 +173,16 @@ def hp_float(d, m, s):
     return float('%d.%02d%0*d' % (d, m, nd + 2, sn))
 
 
-def inject(sign, d, m, s, numpy_forms=False):
+VARIANTS = ['assigned', 'string', 'strobj', 'reassigned']
+
+
+def form_of(raw):
+    if isinstance(raw, tuple) and isinstance(raw[-1], str) and raw[-1] in VARIANTS:
+        return raw[-1]
+    return type(raw).__name__
+
+
+def inject(sign, d, m, s, numpy_forms=False, obj_forms=False):
     """the lattice angle sign*(d deg m' s") in each of the nine notations"""
     arc = F(d * 3600 + m * 60) + F(s)
     dec = float(arc / 3600)
@@ -199,6 +208,13 @@ def inject(sign, d, m, s, numpy_forms=False):
         if s == 0 and m == 0:
             out.append(('dec', sign * d))
             out.append(('gon', np.int64(sign * d)))
+    if obj_forms:
+        # the same DMS / DDM angle reached by other legal constructions: public fields assigned after construction, the
+        # documented formatted string, the object rebuilt from its own text form, fields re-assigned after the object was used
+        out = []
+        for v in VARIANTS:
+            out.append(('dms', ('dms', sign > 0, d, m, float(s), v)))
+            out.append(('ddm', ('ddm', sign > 0, d, float(m + F(s) / 60), v)))
     return out
 
 
@@ -206,6 +222,23 @@ def build(notation, raw, rec=None, case=None):
     """raw -> state; constructing an object is itself a transition of the implementation"""
     if notation in ('dec', 'rad', 'gon', 'hp'):
         return (notation, raw)
+    if notation in ('dms', 'ddm') and form_of(raw) in VARIANTS:
+        var, pos = raw[-1], raw[1]
+        cls = ga.DMSAngle if notation == 'dms' else ga.DDMAngle
+        fields = list(raw[2:-1])
+        names = ['degree', 'minute', 'second'][:len(fields)]
+        if var in ('assigned', 'reassigned'):
+            o = cls(*([12, 34, 56.789] if notation == 'dms' else [12, 34.56789]), positive=not pos)
+            if var == 'reassigned':
+                # the object has been used before its fields change
+                o.dec(), o.hp(), o.rad(), str(o), o == o, hash(repr(o))
+            for nm, x in zip(names, fields):
+                setattr(o, nm, x)
+            o.positive = pos
+            return (notation, o)
+        if var == 'string':
+            return (notation, cls(('' if pos else '-') + ' '.join(repr(x) for x in fields)))
+        return (notation, cls(str(cls(*fields, positive=pos))))
     if notation == 'dms':
         _, pos, d, m, s = raw
         return ('dms', ga.DMSAngle(d, m, s, positive=pos))
@@ -312,6 +345,10 @@ def gen(tier, seed):
     for d in (0, 1, 59, 127, 359):
         for m in (0, 30, 59):
             yield {'deg': d, 'min': m, 'secs': [0, 30], 'depth': 2, 'numpy': True}
+    # (6) DMS / DDM objects reached by other constructions (fields assigned, formatted strings incl. exponent notation)
+    for d in (0, 1, 59, 144, 359, 719):
+        for m in (0, 30, 59):
+            yield {'deg': d, 'min': m, 'secs': 'tiny', 'depth': 2, 'objforms': True}
 
 
 def seconds_of(case):
@@ -323,6 +360,8 @@ def seconds_of(case):
             for f in FRAC:
                 out.append(F(s) + f)
         return out
+    if case['secs'] == 'tiny':
+        return [F(0), F(30), F(59), F(36, 10 ** 9), F(1, 10 ** 5), F(30) + F(1, 10 ** 7), F(599999, 10 ** 4)]
     return [F(s) for s in case['secs']]
 
 
@@ -332,10 +371,13 @@ def ev(case, rec):
         for sign in (1, -1):
             if sign < 0 and d == 0 and m == 0 and s == 0:
                 continue
-            for notation, raw in inject(sign, d, m, s, bool(case.get('numpy'))):
+            for notation, raw in inject(sign, d, m, s, bool(case.get('numpy')), bool(case.get('objforms'))):
                 rec._case = {'deg': d, 'min': m, 'sec': float(s), 'sign': sign, 'notation': notation, 'depth': depth,
-                             'secs': [float(s)], 'numpy': bool(case.get('numpy')), 'form': type(raw).__name__}
-                rec.nontriv((sign, d, m, float(s), notation, depth))
+                             'secs': [float(s)], 'numpy': bool(case.get('numpy')), 'objforms': bool(case.get('objforms')),
+                             'form': form_of(raw)}
+                if case.get('_env'):
+                    rec._case['_env'] = case['_env']
+                rec.nontriv((sign, d, m, float(s), notation, depth, form_of(raw)))
                 explore(rec, [notation, raw], depth)
     rec._case = case
     rec.sample({'case': case, 'edges_total': N_EDGES})
@@ -345,8 +387,8 @@ def ev_single(case, rec):
     """replay form produced by rec.fail inside ev: a single injected state"""
     if 'notation' in case:
         s = F(repr(case['sec'])) if not float(case['sec']).is_integer() else F(int(case['sec']))
-        for notation, raw in inject(case['sign'], case['deg'], case['min'], s, bool(case.get('numpy'))):
-            if notation == case['notation'] and type(raw).__name__ == case.get('form', type(raw).__name__):
+        for notation, raw in inject(case['sign'], case['deg'], case['min'], s, bool(case.get('numpy')), bool(case.get('objforms'))):
+            if notation == case['notation'] and form_of(raw) == case.get('form', form_of(raw)):
                 explore(rec, [notation, raw], case['depth'])
         return
     ev(case, rec)
@@ -397,8 +439,8 @@ def ev_reject_single(case, rec):
 
 
 SUBCHECKS = [
-    Sub('graph', gen, ev_single, chunk=6, floor=1000),
-    Sub('reject', gen_reject, ev_reject_single, chunk=1, floor=100),
+    Sub('graph', gen, ev_single, chunk=6, floor=1000, envs=4),
+    Sub('reject', gen_reject, ev_reject_single, chunk=1, floor=100, envs=2),
 ]
 
 
